@@ -15,8 +15,10 @@ import (
 
 // C18: conntrack-state builder. Explicit-state breadth-first search from NewCTStates() over the
 // 16 builder operations; states keyed by the complete printed form of the builder struct (every
-// field, so a field added later is part of the key); successors by copying the struct and
-// calling the real method. Reference model: eight tri-state flags, last call wins.
+// field, so a field added later is part of the key); successors by rebuilding the state on a fresh
+// builder (replaying its shortest path) and calling the real method. Reference model: eight
+// tri-state flags, last call wins. Builders that do not come from the constructor (zero values) and
+// by-value copies of builders are covered from every reachable state as well.
 func init() { Registry["C18"] = c18 }
 
 type ctOp struct {
@@ -265,6 +267,62 @@ done:
 			}
 		}
 	}
+	// A builder need not come from the constructor: the type is exported and its zero value is what the
+	// constructor returns. Every reachable state is rebuilt on a zero-value builder (var, new, literal).
+	var zero int64
+	for _, nd := range seen {
+		for vi, mk := range []func() *of.CTStates{
+			func() *of.CTStates { var s of.CTStates; return &s },
+			func() *of.CTStates { return new(of.CTStates) },
+			func() *of.CTStates { s := of.NewCTStates(); *s = of.CTStates{}; return s }, // a builder reset for reuse
+		} {
+			if vi > 0 && len(nd.path) > 2 {
+				continue
+			}
+			s := mk()
+			for _, i := range nd.path {
+				ctOps[i].f(s)
+			}
+			zero++
+			transitions += int64(len(nd.path))
+			if cl, what := ctOracle(s, nd.ref); cl != "" {
+				report("zero-value-builder:"+cl, what+" (builder declared as a zero value instead of coming from NewCTStates())", nd.path)
+				break
+			}
+		}
+	}
+	r.Set("zero_value_builders", zero)
+	r.Completed("every reachable state rebuilt on a zero-value builder")
+	// A builder copied by value is a builder of its own: from every reachable state, copy it, apply each
+	// operation to the copy (the original must still give its own match, the copy the extended one), and
+	// the other way round.
+	var forks int64
+	for _, nd := range seen {
+		for oi, o := range ctOps {
+			path := append(append([]int{}, nd.path...), oi)
+			for dir := 0; dir < 2; dir++ {
+				base, m := ctBuild(nd.path)
+				fork := *base
+				moved, still := &fork, base
+				if dir == 1 {
+					moved, still = base, &fork
+				}
+				o.f(moved)
+				forks++
+				transitions++
+				if cl, what := ctOracle(still, m); cl != "" {
+					report("copy-shares-state:"+cl, what+fmt.Sprintf(" (the builder was copied by value after %d calls; the last call was made on the %s only and this is the match of the other one)", len(nd.path), []string{"copy", "original"}[dir]), path)
+					break
+				}
+				if cl, what := ctOracle(moved, m.apply(o)); cl != "" {
+					report("copy:"+cl, what+" (builder copied by value before the last call)", path)
+					break
+				}
+			}
+		}
+	}
+	r.Set("forked_builders", forks)
+	r.Completed("every reachable state x 16 operations on a by-value copy of the builder, and on the original with the copy looked at")
 	r.Set("built_matches_reinspected_after_a_further_call", kept)
 	r.Completed("every reachable state x 16 operations with a match built and kept before the operation")
 	r.Set("transitions", transitions)
